@@ -161,7 +161,7 @@ MUL_ROUTINES = {
 
 
 class AsmMulUnit(AsmUnit):
-    def __init__(self, sfile, rname, tier="thorough"):
+    def __init__(self, sfile, rname, tier="experimental"):
         self.sfile = sfile
         self.rname = rname
         self.spec = dict(MUL_ROUTINES[(sfile, rname)], ret="void")
